@@ -1,7 +1,11 @@
 use crate::serializer::{StoreRefResult, StoreStringResult};
 use crate::{RefId, StringId};
+#[cfg(not(kani))]
 use hashbrown::hash_map::Entry;
+#[cfg(not(kani))]
 use hashbrown::HashMap;
+#[cfg(kani)]
+use crate::verif_map::{hash_map::Entry, HashMap};
 use std::any::Any;
 
 #[derive(Default)]
